@@ -38,13 +38,16 @@ pub struct WireRecord {
     pub bytes: Vec<u8>,
 }
 
+/// Whether new servers record every wire buffer from the start (C03).
+pub static KEEP_WIRE_DEFAULT: std::sync::atomic::AtomicBool = std::sync::atomic::AtomicBool::new(false);
+
 pub struct Server {
     pub backend: Arc<RwLock<Backend>>,
     pub dir: PathBuf,
     pub target: BackendTarget,
     pub wire: StdMutex<Vec<WireRecord>>,
     /// keep recorded buffers (C03) or only count them
-    pub keep_wire: bool,
+    pub keep_wire: std::sync::atomic::AtomicBool,
     pub wire_bytes: StdMutex<u64>,
     /// what the most recent write request carried, per log: (rewind target, commits of the patch)
     pub last_carried: StdMutex<Vec<Carried>>,
@@ -74,7 +77,7 @@ impl Server {
             BackendTarget::FileSystem(paths.clone())
         };
         let backend = Backend::new(paths, target.clone());
-        Ok(Arc::new(Server { backend: Arc::new(RwLock::new(backend)), dir: dir.to_path_buf(), target, wire: StdMutex::new(vec![]), keep_wire: false, wire_bytes: StdMutex::new(0), last_carried: StdMutex::new(vec![]) }))
+        Ok(Arc::new(Server { backend: Arc::new(RwLock::new(backend)), dir: dir.to_path_buf(), target, wire: StdMutex::new(vec![]), keep_wire: std::sync::atomic::AtomicBool::new(KEEP_WIRE_DEFAULT.load(std::sync::atomic::Ordering::Relaxed)), wire_bytes: StdMutex::new(0), last_carried: StdMutex::new(vec![]) }))
     }
 
     pub async fn account(&self, account_id: &AccountId) -> Option<Arc<RwLock<ServerStorage>>> {
@@ -86,7 +89,7 @@ impl Server {
 
     fn record(&self, device: usize, kind: &'static str, direction: &'static str, bytes: &[u8]) {
         *self.wire_bytes.lock().unwrap() += bytes.len() as u64;
-        if self.keep_wire {
+        if self.keep_wire.load(std::sync::atomic::Ordering::Relaxed) {
             self.wire.lock().unwrap().push(WireRecord { device, kind, direction, bytes: bytes.to_vec() });
         }
     }
